@@ -212,9 +212,17 @@ def volatile_paths(case, tags, constrained):
 # ------------------------------------------------------------------ operations
 
 
-def op_simulate(case, k, args):
+def op_simulate(case, k, args, jit=False):
     issues = []
-    tr = call(case.gf.simulate, key(k), real_args(args))
+    if jit:
+        # a trace that went through a JAX transformation (pytree round trip: dict-keyed
+        # subtraces come back in sorted order, Python scalars as arrays)
+        import jax
+
+        ra = real_args(args)
+        tr = call(lambda kk: jax.jit(lambda q: case.gf.simulate(q, ra))(kk), key(k))
+    else:
+        tr = call(case.gf.simulate, key(k), real_args(args))
     rec = observe(case, tr, args, issues, what="simulate")
     return rec, issues
 
@@ -531,6 +539,12 @@ def gen_constraint(rng, case, rec_or_none, args, frac=None, only_live=True, path
         uniq.setdefault(p, d)
     items = sorted(uniq.items(), key=lambda t: repr(t[0]))
     if frac is None:
+        indexed = sorted({tuple(c for c in p if isinstance(c, str)) for p, _ in items if any(not isinstance(c, str) for c in p)})
+        if indexed and rng.random() < 0.25:
+            # one site under a vector combinator, constrained at every index and nothing else
+            # (with form 'array' this is a single C[..., idx_array, ...] entry covering the axis)
+            pat = indexed[int(rng.integers(len(indexed)))]
+            return {p: sample_site_value(rng, d) for p, d in items if tuple(c for c in p if isinstance(c, str)) == pat}
         frac = float(rng.choice([0.0, 0.3, 0.5, 1.0], p=[0.1, 0.35, 0.35, 0.2]))
     out = {}
     for p, d in items:
